@@ -158,5 +158,11 @@ mut("t2-raw-map-expr", "parallel/map.go.tmpl", "for key, val := range {{ expr .M
 mut("t2-bare-slice-expr", "parallel/slice.go.tmpl", "{{ $t }}Slice := {{ expr .Slice }}", "{{ $t }}Slice := {{ .Slice }}", ["T2"])
 mut("t2-prologue-uses-expr-twice", "prologue/param_expr.go.tmpl", "	{{ expr . }} := {{ rawExpr . }}", "	{{ expr . }} := {{ expr . }}", ["T2"])
 mut("t1-new-decision-field", "flow/task.go.tmpl", "	defer {{ $t }}.ran.Store(true)\n", "	{{ if .Function.Sig }}_ = 0{{ end }}\n	defer {{ $t }}.ran.Store(true)\n", ["T1"], why="model drift: new template decision not covered by the product")
+
+MT="internal/modifier/templates/"
+mut("m-task-no-named-result", MT+"flow_task.go.tmpl", "{{ $t }}.run = func(ctx {{ $context }}.Context) (err error) {", "{{ $t }}.run = func(ctx {{ $context }}.Context) error {\n	var err error", ["V18", "V2"], edits=[dict(file=MT+"flow_task.go.tmpl", old="{{ template \"callTaskArgs\" . }}\n	return\n}", new="{{ template \"callTaskArgs\" . }}\n	return err\n}")], why="modifier task panic swallowed")
+mut("m-drop-deps", MT+"flow_task.go.tmpl", "			    {{ template \"dependencies\" . }}\n", "", ["V18", "V5"])
+mut("m-results-before-wait", MT+"flow.go.tmpl", "	if err := sched.Wait(ctx); err != nil {\n		flowEmitter.FlowError(ctx, err)\n		return err\n	}\n\n	{{ range .Outputs }}\n		*({{ expr .Node }}) = v{{ typeHash .Type }} // {{ typeName .Type }}\n	{{ end }}\n", "	{{ range .Outputs }}\n		*({{ expr .Node }}) = v{{ typeHash .Type }} // {{ typeName .Type }}\n	{{ end }}\n	if err := sched.Wait(ctx); err != nil {\n		flowEmitter.FlowError(ctx, err)\n		return err\n	}\n", ["V18", "V7"])
+mut("m-concurrency-dropped", MT+"flow.go.tmpl", "{{ with .Concurrency -}} Concurrency: {{ expr . }}, {{ end -}}", "", ["V18", "V9"])
 json.dump(M, open(__file__.replace("gen_tmpl.py", "tmpl.json"), "w"), indent=1)
 print(len(M), "mutants")
